@@ -69,7 +69,9 @@ class TieredInterval:
                 if o_add_s_ext:
                     assert False, f"{self} and {other} are incomparable"
                 return False
-        return False
+        # With equal tiers, the interval with the smaller cutoff sets the
+        # tiers that the other one adds to, so it never arrives later.
+        return self.cutoff < other.cutoff
 
     def __repr__(self):
         return (
